@@ -427,8 +427,8 @@ public:
    {
       add(svec, n);
 
-      for(int i = num() - 1; --n; --i)
-         nkey[n] = key(i);
+      for(int i = num() - 1; n > 0; --i)
+         nkey[--n] = key(i);
    }
 
    /// Adds all SVectorBase%s in \p pset to SVSetBase.
